@@ -52,6 +52,15 @@ type Op struct {
 	VarOK bool   `json:"varok"`
 }
 
+// ScriptOnly drops the fields that only mean something for a request written as a script by the generator
+// (script-set metadata, account variable) when the operation is not one: a postings request sent through
+// another entry point must not carry them (the specification ignores them unless op.script).
+func (o *Op) ScriptOnly() {
+	if !o.Script {
+		o.SMeta, o.SAMeta, o.VarD, o.VarOK = map[string]string{}, map[string]map[string]string{}, "", false
+	}
+}
+
 func (o *Op) Norm() {
 	if o.Ps == nil {
 		o.Ps = []Posting{}
